@@ -5,7 +5,7 @@ import itertools
 
 from ..program import AnalysisError, walk_local, dotted
 from ..analysis import Spec, src, const_value
-from ..rules import (GWF, EXC, mpt, need_func, stores_to, is_const, kw,
+from ..rules import (template_sites, inside, before, GWF, EXC, mpt, need_func, stores_to, is_const, kw,
                      parent_map, raise_class, explicit_exits,
                      strip_wrappers)
 from . import common
@@ -204,7 +204,7 @@ def warning_conditions(prog, an, rep):
     head = c.stmt_node[id(inner)]
     tb = [s for s in c.succ[head] if c.nodes[s].kind == 'true']
     conts = [n.id for n in c.nodes.values() if n.kind == 'continue' and
-             inner.lineno <= n.lineno <= inner.end_lineno]
+             inside(inner, n)]
     done = c.done_node[id(sets[0])]
     ok = True
     path = None
@@ -241,12 +241,12 @@ def warning_conditions(prog, an, rep):
               len(conts))
     for st in inits:
         n_ = st
-        inside = False
+        is_in = False
         while n_ in pm:
             n_ = pm[n_]
             if isinstance(n_, (ast.For, ast.While)):
-                inside = True
-        rep.check(not inside, R, f.qname + ': the warning is never cleared '
+                is_in = True
+        rep.check(not is_in, R, f.qname + ': the warning is never cleared '
                   'once set', f.where(st), 'the warning is reset inside a '
                   'loop: manual work on an earlier integration branch is '
                   'forgotten')
@@ -433,17 +433,15 @@ def own_names(prog, an, rep):
     if not ok:
         return
     dv = loops[0].target.id
-    fm = [x for x in walk_local(f.node, include_root=False)
-          if isinstance(x, ast.Call) and isinstance(x.func, ast.Attribute)
-          and x.func.attr == 'format']
+    fm = template_sites(f)
     sv = [src(v) for _, v in stores_to(f, 'src') if v is not None]
-    ok = len(fm) == 1 and const_value(fm[0].func.value) == 'w/{}/{}' and \
-        [src(a) for a in fm[0].args] == [dv + '.version', 'src'] and \
+    ok = len(fm) == 1 and fm[0][1] == 'w/{}/{}' and \
+        [src(a) for a in fm[0][2]] == [dv + '.version', 'src'] and \
         sv == ['job.git.src_branch']
     rep.evaluated()
     rep.check(ok, R, f.qname + ': names are w/<target version>/<this '
               'source branch>', f.where(), 'names built by %s with src=%s' %
-              ([src(x) for x in fm], sv))
+              ([src(x[0]) for x in fm], sv))
     ex = an.branch_nodes(f, lambda e: isinstance(e, ast.Call) and
                          isinstance(e.func, ast.Attribute) and
                          e.func.attr == 'exists', True)
